@@ -318,3 +318,320 @@ Theorem C14_history_nonvacuous :
       ([true; true; true; true], Ok [], []) ].
 Proof. split; [exact ex_cf_history|exact ex_tp_history]. Qed.
 Print Assumptions C14_history_nonvacuous.
+
+Require Import Verif.Check.C01_check Verif.Check.C14_check Verif.Proofs.JudgeSoundC14P.
+(* ---- the executable properties of Check/C14_check.v are the property (judge soundness) ---- *)
+(* For every sink: the model's own output passes the executable property x_ok of its judge (so code 2 is never raised on
+   a case where the code agrees with the model), and ANY output that passes x_ok satisfies the Prop-level clause.
+   cf_input_wf / tp_input_wf / pplug_input_wf (Proofs/JudgeSoundC14P.v): every Go map of an observation has each key once
+   and every observed f candidate is below 2^62 (spec: trusted); oracle ids distinct = libocr's one observation per oracle. *)
+
+(* dev: C14_deviates_sym, C14_deviates_zero, C14_deviates_spec (in both operand orders) on the two answers of the code *)
+Theorem C14_judge_dev_model_passes : forall i, dev_ok i (dev_model i) = true.
+Proof. exact dev_model_passes. Qed.
+Print Assumptions C14_judge_dev_model_passes.
+
+Theorem C14_judge_dev_sound : forall x1 x2 ppb o,
+  dev_ok (x1, x2, ppb) o = true ->
+  fst o = snd o /\
+  (x1 = 0%Z \/ x2 = 0%Z -> (fst o = true <-> x1 <> x2)) /\
+  ((0 < x2 <= x1)%Z -> (fst o = true <-> (ppb + 1) * x2 <= (x1 - x2) * 1000000000)%Z) /\
+  ((0 < x1 <= x2)%Z -> (fst o = true <-> (ppb + 1) * x1 <= (x2 - x1) * 1000000000)%Z).
+Proof. exact dev_sound. Qed.
+Print Assumptions C14_judge_dev_sound.
+
+(* usd: C14_units_usd; the bounds determine the answer *)
+Theorem C14_judge_usd_model_passes : forall i, usd_ok i (usd_model i) = true.
+Proof. exact usd_model_passes. Qed.
+Print Assumptions C14_judge_usd_model_passes.
+
+Theorem C14_judge_usd_sound : forall i o,
+  usd_ok i o = true ->
+  (o * 1000000000000000000 <= fst i * snd i < (o + 1) * 1000000000000000000)%Z /\ o = usd_per_unit_gas (fst i) (snd i).
+Proof. exact usd_sound. Qed.
+Print Assumptions C14_judge_usd_sound.
+
+(* pack: C14_units_packing on (ToPackedFee, FromPackedFee of it); operands out of range are not judged *)
+Theorem C14_judge_pack_model_passes : forall i, pack_ok i (pack_model i) = true.
+Proof. exact pack_model_passes. Qed.
+Print Assumptions C14_judge_pack_model_passes.
+
+Theorem C14_judge_pack_sound : forall da ex o,
+  pack_ok (da, ex) o = true ->
+  (0 <= ex < 2 ^ 112)%Z -> (0 <= da)%Z ->
+  fst o = (da * 2 ^ 112 + ex)%Z /\ snd o = (ex, da) /\ fst o = to_packed da ex /\ snd o = from_packed (fst o).
+Proof. exact pack_sound. Qed.
+Print Assumptions C14_judge_pack_sound.
+
+(* med: C14_median_robust for any accepted value: bracketed by the honest observations, and an observed value ... *)
+Theorem C14_judge_med_model_passes : forall l, med_ok l (med_model l) = true.
+Proof. exact med_model_passes. Qed.
+Print Assumptions C14_judge_med_model_passes.
+
+Theorem C14_judge_med_sound : forall (xs hs bs : list Z) (o : Z) (f : nat) (lo hi : Z),
+  med_ok xs o = true ->
+  Permutation xs (hs ++ bs) -> (length bs <= f)%nat -> (2 * f + 1 <= length xs)%nat ->
+  (forall h, In h hs -> lo <= h <= hi)%Z ->
+  (lo <= o <= hi)%Z /\ In o xs.
+Proof. exact med_sound. Qed.
+Print Assumptions C14_judge_med_sound.
+
+(* ... in fact the rank test of the check pins the value: element len/2 of the sorted observations *)
+Theorem C14_judge_med_sound_value : forall l o, l <> [] -> med_ok l o = true -> o = medianZ l.
+Proof. exact med_ok_eq. Qed.
+Print Assumptions C14_judge_med_sound_value.
+
+(* cf: chainfee ValidateObservation + Outcome *)
+Theorem C14_judge_cf_model_passes : forall freq feeinfo F dest roles known aos,
+  NoDup (map fst aos) -> cf_input_wf aos ->
+  cf_ok (freq, feeinfo, F, dest, roles, known, aos) (cf_model (freq, feeinfo, F, dest, roles, known, aos)) = true.
+Proof. exact cf_model_passes. Qed.
+Print Assumptions C14_judge_cf_model_passes.
+
+(* an accepted output: one verdict per observation, distinct oracles, every accepted observation satisfies
+   C14_validated_no_null_chainfee, and the result IS the model's Outcome over the observations that output accepted *)
+Theorem C14_judge_cf_sound : forall freq feeinfo F dest roles known aos o,
+  cf_input_wf aos ->
+  cf_ok (freq, feeinfo, F, dest, roles, known, aos) o = true ->
+  let accr := select (fst o) aos in
+  let acc := map (fun ao => (fst ao, cf_clean (snd ao))) accr in
+  length (fst o) = length aos /\ NoDup (map fst aos) /\
+  (forall ao, In ao accr -> cf_no_null (snd ao)) /\
+  snd o = cf_outcome freq feeinfo F dest acc /\
+  ((exists out, snd o = Ok out /\ keys_strict out) \/ snd o = Err).
+Proof. exact cf_sound. Qed.
+Print Assumptions C14_judge_cf_sound.
+
+(* hence C14_gas_price (medians of >= 2f_k+1 observations, packed USD prices) ... *)
+Theorem C14_judge_cf_sound_gas_price : forall freq feeinfo F dest roles known aos o out k g,
+  cf_input_wf aos ->
+  cf_ok (freq, feeinfo, F, dest, roles, known, aos) o = true ->
+  snd o = Ok out -> In (k, g) out ->
+  let acc := map (fun ao => (fst ao, cf_clean (snd ao))) (select (fst o) aos) in
+  exists f,
+    alookup k (fchain_cons cf_fchain F acc) = Some f /\
+    let fcs := map snd (votes cf_feecomp acc k) in
+    let nts := map snd (votes cf_native acc k) in
+    (agg_thr (two_f_plus_1 f) <= N.of_nat (length fcs))%N /\
+    (agg_thr (two_f_plus_1 f) <= N.of_nat (length nts))%N /\
+    g = to_packed (usd_per_unit_gas (medianZ (map snd fcs)) (medianZ nts))
+                  (usd_per_unit_gas (medianZ (map fst fcs)) (medianZ nts)).
+Proof. exact cf_sound_gas_price. Qed.
+Print Assumptions C14_judge_cf_sound_gas_price.
+
+(* ... and C14_selection_gas (reported iff agreed USD prices and no stored update / heartbeat / deviation; sorted) of the
+   implementation's prices *)
+Theorem C14_judge_cf_sound_selection : forall freq feeinfo F dest roles known aos o out,
+  cf_input_wf aos ->
+  cf_ok (freq, feeinfo, F, dest, roles, known, aos) o = true ->
+  snd o = Ok out ->
+  let acc := map (fun ao => (fst ao, cf_clean (snd ao))) (select (fst o) aos) in
+  exists c, cf_consensus F dest acc = Ok c /\
+    (forall k g, In (k, g) out <->
+       exists ex da, In (k, (ex, da)) (cf_usd c) /\ g = to_packed da ex /\
+         (alookup k (cc_updates c) = None \/
+          exists uex uda uts, alookup k (cc_updates c) = Some (uex, uda, uts) /\
+            ((uts + freq < cc_ts c)%Z \/
+             exists eppb dppb, alookup k feeinfo = Some (eppb, dppb) /\
+               (deviates ex uex eppb = true \/ deviates da uda dppb = true)))) /\
+    keys_strict out.
+Proof. exact cf_sound_selection. Qed.
+Print Assumptions C14_judge_cf_sound_selection.
+
+(* the check as it was: (1) demanded da * 2^112 + ex where the code and C14_gas_price have to_packed da ex, and so rejected
+   the model's own output when the agreed execution price reaches 2^112 (a false alarm in waiting);
+   (2) let an accepted observation with a negative execution fee pass (C14_validated_no_null_chainfee: 0 < e) *)
+Theorem C14_judge_cf_before_false_alarm :
+  cf_model fa_cf_in = ([true; true; true; true], Ok [(5%N, (2 ^ 120)%Z)]) /\
+  cf_ok_before fa_cf_in (cf_model fa_cf_in) = false /\
+  cf_ok fa_cf_in (cf_model fa_cf_in) = true.
+Proof. exact cf_ok_before_false_alarm. Qed.
+Print Assumptions C14_judge_cf_before_false_alarm.
+
+Theorem C14_judge_cf_before_weak :
+  cf_ok_before wk_cf_in ([true; true; true; true], Ok []) = true /\
+  ~ cf_no_null (mkCfRaw [(5%N, (Some (-5), Some 1)%Z)] [] [] [(9%N, 1%Z)] 100%Z) /\
+  cf_ok wk_cf_in ([true; true; true; true], Ok []) = false.
+Proof. exact cf_ok_before_weak. Qed.
+Print Assumptions C14_judge_cf_before_weak.
+
+(* tp: tokenprice ValidateObservation + Outcome *)
+Theorem C14_judge_tp_model_passes : forall freq tokeninfo feedchain F dest roles known aos,
+  NoDup (map fst aos) -> tp_input_wf aos ->
+  tp_ok (freq, tokeninfo, feedchain, F, dest, roles, known, aos)
+        (tp_model (freq, tokeninfo, feedchain, F, dest, roles, known, aos)) = true.
+Proof. exact tp_model_passes. Qed.
+Print Assumptions C14_judge_tp_model_passes.
+
+Theorem C14_judge_tp_sound : forall freq tokeninfo feedchain F dest roles known aos o,
+  tp_input_wf aos ->
+  tp_ok (freq, tokeninfo, feedchain, F, dest, roles, known, aos) o = true ->
+  let accr := select (fst o) aos in
+  let acc := map (fun ao => (fst ao, tp_clean (snd ao))) accr in
+  length (fst o) = length aos /\ NoDup (map fst aos) /\
+  (forall ao, In ao accr -> tp_no_null (snd ao)) /\
+  snd o = tp_outcome freq tokeninfo feedchain F dest acc /\
+  ((exists out, snd o = Ok out /\ keys_strict out) \/ snd o = Err).
+Proof. exact tp_sound. Qed.
+Print Assumptions C14_judge_tp_sound.
+
+(* hence C14_token_price ... *)
+Theorem C14_judge_tp_sound_token_price : forall freq tokeninfo feedchain F dest roles known aos o out t p,
+  tp_input_wf aos ->
+  tp_ok (freq, tokeninfo, feedchain, F, dest, roles, known, aos) o = true ->
+  snd o = Ok out -> In (t, p) out ->
+  let acc := map (fun ao => (fst ao, tp_clean (snd ao))) (select (fst o) aos) in
+  exists ff,
+    alookup feedchain (fchain_cons tp_fchain F acc) = Some ff /\
+    let ps := map snd (votes tp_feed acc t) in
+    (agg_thr (two_f_plus_1 ff) <= N.of_nat (length ps))%N /\ p = medianZ ps.
+Proof. exact tp_sound_token_price. Qed.
+Print Assumptions C14_judge_tp_sound_token_price.
+
+(* ... C14_token_price_robust (between the honest observations) ... *)
+Theorem C14_judge_tp_sound_robust : forall freq tokeninfo feedchain F dest roles known aos o out t p ff hs bs lo hi,
+  tp_input_wf aos ->
+  tp_ok (freq, tokeninfo, feedchain, F, dest, roles, known, aos) o = true ->
+  snd o = Ok out -> In (t, p) out ->
+  let acc := map (fun ao => (fst ao, tp_clean (snd ao))) (select (fst o) aos) in
+  alookup feedchain (fchain_cons tp_fchain F acc) = Some ff -> (0 <= ff < 2 ^ 62)%Z ->
+  Permutation (map snd (votes tp_feed acc t)) (hs ++ bs) -> (length bs <= Z.to_nat ff)%nat ->
+  (forall h, In h hs -> lo <= h <= hi)%Z ->
+  (lo <= p <= hi)%Z.
+Proof. exact tp_sound_robust. Qed.
+Print Assumptions C14_judge_tp_sound_robust.
+
+(* ... and C14_selection_token of the implementation's prices *)
+Theorem C14_judge_tp_sound_selection : forall freq tokeninfo feedchain F dest roles known aos o out,
+  tp_input_wf aos ->
+  tp_ok (freq, tokeninfo, feedchain, F, dest, roles, known, aos) o = true ->
+  snd o = Ok out ->
+  let acc := map (fun ao => (fst ao, tp_clean (snd ao))) (select (fst o) aos) in
+  (freq = 0%Z /\ out = []) \/
+  (freq <> 0%Z /\ exists c, tp_consensus feedchain F dest acc = Ok c /\
+     (forall t p, In (t, p) out <->
+        In (t, p) (tc_feed c) /\
+        (alookup t (tc_updates c) = None \/
+         exists uts uval ppb, alookup t (tc_updates c) = Some (uts, uval) /\ alookup t tokeninfo = Some ppb /\
+           ((uts + freq < tc_ts c)%Z \/ deviates p uval ppb = true))) /\
+     keys_strict out).
+Proof. exact tp_sound_selection. Qed.
+Print Assumptions C14_judge_tp_sound_selection.
+
+(* pplug: commit.Plugin ValidateObservation + Outcome + Reports: an accepted output is the model's, verdicts included *)
+Theorem C14_judge_pplug_model_passes : forall gfreq feeinfo tfreq tokeninfo feedchain F dest roles known aos,
+  NoDup (map fst aos) -> pplug_input_wf aos ->
+  pplug_ok (gfreq, feeinfo, tfreq, tokeninfo, feedchain, F, dest, roles, known, aos)
+           (pplug_model (gfreq, feeinfo, tfreq, tokeninfo, feedchain, F, dest, roles, known, aos)) = true.
+Proof. exact pplug_model_passes. Qed.
+Print Assumptions C14_judge_pplug_model_passes.
+
+Theorem C14_judge_pplug_sound : forall gfreq feeinfo tfreq tokeninfo feedchain F dest roles known aos o,
+  pplug_input_wf aos ->
+  pplug_ok (gfreq, feeinfo, tfreq, tokeninfo, feedchain, F, dest, roles, known, aos) o = true ->
+  o = pplug_model (gfreq, feeinfo, tfreq, tokeninfo, feedchain, F, dest, roles, known, aos).
+Proof. exact pplug_sound. Qed.
+Print Assumptions C14_judge_pplug_sound.
+
+(* the report carries exactly the outcome's prices, sorted, each satisfying C14_gas_price / C14_token_price over the
+   observations the plugin validated *)
+Theorem C14_judge_pplug_sound_report : forall gfreq feeinfo tfreq tokeninfo feedchain F dest roles known aos vs gas tok rgas rtok,
+  pplug_input_wf aos ->
+  pplug_ok (gfreq, feeinfo, tfreq, tokeninfo, feedchain, F, dest, roles, known, aos) (vs, Ok (gas, tok, (rgas, rtok))) = true ->
+  let acc := select vs aos in
+  let cacc := map (fun ao : N * pplug_obs => (fst ao, cf_clean (fst (fst (snd ao))))) acc in
+  let tacc := map (fun ao : N * pplug_obs => (fst ao, tp_clean (snd (fst (snd ao))))) acc in
+  rgas = gas /\ rtok = tok /\ keys_strict gas /\ keys_strict tok /\
+  (forall k g, In (k, g) rgas ->
+     exists f,
+       alookup k (fchain_cons cf_fchain F cacc) = Some f /\
+       let fcs := map snd (votes cf_feecomp cacc k) in
+       let nts := map snd (votes cf_native cacc k) in
+       (agg_thr (two_f_plus_1 f) <= N.of_nat (length fcs))%N /\
+       (agg_thr (two_f_plus_1 f) <= N.of_nat (length nts))%N /\
+       g = to_packed (usd_per_unit_gas (medianZ (map snd fcs)) (medianZ nts))
+                     (usd_per_unit_gas (medianZ (map fst fcs)) (medianZ nts))) /\
+  (forall t p, In (t, p) rtok ->
+     exists ff,
+       alookup feedchain (fchain_cons tp_fchain F tacc) = Some ff /\
+       let ps := map snd (votes tp_feed tacc t) in
+       (agg_thr (two_f_plus_1 ff) <= N.of_nat (length ps))%N /\ p = medianZ ps).
+Proof. exact pplug_sound_report. Qed.
+Print Assumptions C14_judge_pplug_sound_report.
+
+(* cfh / tph: an accepted round output IS the memoryless step function of C14_history_round_gas / _token on this round's role
+   map and observations, for EVERY previous outcome (the one handed in does not occur) *)
+Theorem C14_judge_cfh_model_passes : forall prev freq feeinfo F dest roles known aos,
+  NoDup (map fst aos) -> cf_input_wf aos ->
+  cfh_ok (prev, (freq, feeinfo, F, dest, roles, known, aos)) (cfh_model (prev, (freq, feeinfo, F, dest, roles, known, aos))) = true.
+Proof. exact cfh_model_passes. Qed.
+Print Assumptions C14_judge_cfh_model_passes.
+
+Theorem C14_judge_cfh_sound : forall prev prev' freq feeinfo F dest roles known aos o,
+  cf_input_wf aos ->
+  cfh_ok (prev, (freq, feeinfo, F, dest, roles, known, aos)) o = true ->
+  o = cf_step (mkCfCfg freq feeinfo F dest) prev' (mkCfRound roles known aos).
+Proof. exact cfh_sound. Qed.
+Print Assumptions C14_judge_cfh_sound.
+
+(* hence the clauses of C14_history_gas_current for every price the round hands on *)
+Theorem C14_judge_cfh_sound_current : forall prev freq feeinfo F dest roles known aos vs r car c g,
+  cf_input_wf aos ->
+  cfh_ok (prev, (freq, feeinfo, F, dest, roles, known, aos)) (vs, r, car) = true ->
+  In (c, g) car ->
+  let cfg := mkCfCfg freq feeinfo F dest in
+  let acc := cf_accepted cfg (mkCfRound roles known aos) in
+  r = Ok car /\
+  (exists f,
+     alookup c (fchain_cons cf_fchain F acc) = Some f /\
+     let fcs := map snd (votes cf_feecomp acc c) in
+     let nts := map snd (votes cf_native acc c) in
+     (agg_thr (two_f_plus_1 f) <= N.of_nat (length fcs))%N /\
+     (agg_thr (two_f_plus_1 f) <= N.of_nat (length nts))%N /\
+     g = to_packed (usd_per_unit_gas (medianZ (map snd fcs)) (medianZ nts))
+                   (usd_per_unit_gas (medianZ (map fst fcs)) (medianZ nts))).
+Proof. exact cfh_sound_current. Qed.
+Print Assumptions C14_judge_cfh_sound_current.
+
+Theorem C14_judge_tph_model_passes : forall prev freq tokeninfo feedchain F dest roles known aos,
+  NoDup (map fst aos) -> tp_input_wf aos ->
+  tph_ok (prev, (freq, tokeninfo, feedchain, F, dest, roles, known, aos))
+         (tph_model (prev, (freq, tokeninfo, feedchain, F, dest, roles, known, aos))) = true.
+Proof. exact tph_model_passes. Qed.
+Print Assumptions C14_judge_tph_model_passes.
+
+Theorem C14_judge_tph_sound : forall prev prev' freq tokeninfo feedchain F dest roles known aos o,
+  tp_input_wf aos ->
+  tph_ok (prev, (freq, tokeninfo, feedchain, F, dest, roles, known, aos)) o = true ->
+  o = tp_step (mkTpCfg freq tokeninfo feedchain F dest) prev' (mkTpRound roles known aos).
+Proof. exact tph_sound. Qed.
+Print Assumptions C14_judge_tph_sound.
+
+Theorem C14_judge_tph_sound_current : forall prev freq tokeninfo feedchain F dest roles known aos vs r car t p,
+  tp_input_wf aos ->
+  tph_ok (prev, (freq, tokeninfo, feedchain, F, dest, roles, known, aos)) (vs, r, car) = true ->
+  In (t, p) car ->
+  let cfg := mkTpCfg freq tokeninfo feedchain F dest in
+  let acc := tp_accepted cfg (mkTpRound roles known aos) in
+  r = Ok car /\
+  (exists ff,
+     alookup feedchain (fchain_cons tp_fchain F acc) = Some ff /\
+     let ps := map snd (votes tp_feed acc t) in
+     (agg_thr (two_f_plus_1 ff) <= N.of_nat (length ps))%N /\ p = medianZ ps).
+Proof. exact tph_sound_current. Qed.
+Print Assumptions C14_judge_tph_sound_current.
+
+(* pplugh: the plugin round judged as in pplug; the previous plugin outcome handed in does not occur *)
+Theorem C14_judge_pplugh_model_passes : forall prev gfreq feeinfo tfreq tokeninfo feedchain F dest roles known aos,
+  NoDup (map fst aos) -> pplug_input_wf aos ->
+  pplugh_ok (prev, (gfreq, feeinfo, tfreq, tokeninfo, feedchain, F, dest, roles, known, aos))
+            (pplugh_model (prev, (gfreq, feeinfo, tfreq, tokeninfo, feedchain, F, dest, roles, known, aos))) = true.
+Proof. exact pplugh_model_passes. Qed.
+Print Assumptions C14_judge_pplugh_model_passes.
+
+Theorem C14_judge_pplugh_sound : forall prev prev' gfreq feeinfo tfreq tokeninfo feedchain F dest roles known aos o,
+  pplug_input_wf aos ->
+  pplugh_ok (prev, (gfreq, feeinfo, tfreq, tokeninfo, feedchain, F, dest, roles, known, aos)) o = true ->
+  o = pplugh_model (prev', (gfreq, feeinfo, tfreq, tokeninfo, feedchain, F, dest, roles, known, aos)).
+Proof. exact pplugh_sound. Qed.
+Print Assumptions C14_judge_pplugh_sound.
